@@ -676,6 +676,7 @@ def emit_module(vf, exp, path, mod, depth, stats, leafs, parent_mod=None):
                 extra = ', ' + m.group(1)
             stub = opaque_frag_stub(fr.name, None, extra)
             stub = stub.replace('// L0: append-only', '// L0: append-only\n                    r is Err ==> (r->Err_0 is BufferOverflow || r->Err_0 is OutOfRange),')
+            stub = stub.replace('// L0: append-only', '// L0: append-only\n                    ' + ',\n                    '.join(c.replace('\n', ' ') for c in rsh['stub_encode_ensures']) + ',   // proved on encode_checked')
             stub = stub.replace('ensures final(par).nz(),', 'ensures final(par).nz(),   // + the clauses proved on decode_checked:\n                    '
                                 + ',\n                    '.join(c.replace('\n', ' ') for c in rsh['stub_decode_ensures']) + ',')
             vf.emit(stub.replace('            ', i2))
